@@ -206,7 +206,7 @@ func init() {
 		ID:    "C23",
 		Level: "exploration",
 		Rule: "cases (aggregation): every KeyManager operation in {ListKeys, InstallKey(new), UseKey(absent locally), UseKey(present), RemoveKey(primary)} on a real node that knows k peers (k=1..3, thorough 1..4) x every multiset of k peer replies over the alphabet {ok{A}, ok{A,B} primary A, ok{A,B} primary B, ok{B}, ok with message, failed (Result=false) with and without a message, wrong type byte, empty payload, undecodable (cut msgpack), well-formed maps that omit fields: {only Result:true}, {only Keys:[B]+PrimaryKey:B}, {only Result:false}, {empty map}, missing} (non-list operations: without the key-set variants) x the node's own real reply {looped back first, looped back last, lost} x {each reply once, each reply delivered twice} x {aggregator runs after every reply, after all replies} x {peer replies arrive in ascending, descending alphabet order (descending only when it is a different sequence)}, so every field-omitting reply is processed both right after fully populated replies (peers' and the node's own) and before them; non-trivial = at least one peer reply is not a plain success. " +
-			"cases (reply size): a list-keys query injected into a fresh real node for every key count n (quick: 17 values in 0..60, thorough: all 0..60) x key lengths {all 16B, all 32B, mixed 16/24/32} x node-name lengths {1,64,128} x QueryResponseSizeLimit in {60,80..1400} plus the exact sizes (-1,0,+1) of the 0-, 1-, 2-, (n-1)- and n-key replies; non-trivial = the reply had to be truncated or could not be sent",
+			"cases (reply size): a list-keys query injected into a fresh real node for every key count n (quick: 17 values in 0..60, thorough: all 0..60) x key lengths {all 16B, all 32B, mixed 16/24/32} x node-name lengths {1,64,128} x QueryResponseSizeLimit in {60,80..1400} plus the exact sizes (-1,0,+1) of the 0-, 1-, 2-, (n-1)- and n-key replies, and for n in {5,20,41} (thorough: every n) the exact sizes -3..+3 of the reply with i keys for EVERY i; non-trivial = the reply had to be truncated or could not be sent",
 		Assumptions: []string{
 			"peer replies come from members only and at most one distinct reply per node (a second copy of the same reply, as produced by relaying, must not be counted again)",
 			"the number of members is what memberlist reports after a real Join against the in-memory push/pull responder (k peers + the node itself)",
@@ -610,6 +610,16 @@ func c23sizes(ctx *vc.Ctx, idx *int) {
 				for _, i := range []int{0, 1, 2, n - 1, n} {
 					if i >= 0 && i <= n {
 						for d := -1; d <= 1; d++ {
+							lim[size[i]+d] = true
+						}
+					}
+				}
+				// every truncation boundary: the limit just below, at and just above the exact size of the
+				// reply with i keys, for EVERY i (quick: for three key counts) -- an off-by-a-few-bytes
+				// size computation only shows at particular residues of limit minus the fixed part
+				if ctx.Thorough() || n == 5 || n == 20 || n == 41 {
+					for i := 0; i <= n; i++ {
+						for d := -3; d <= 3; d++ {
 							lim[size[i]+d] = true
 						}
 					}
